@@ -217,7 +217,7 @@ func (s *Sim) runC03Scenario(sc *Scenario, r *Rng) {
 		for _, i := range ex.Fired {
 			s.Stats.Fault("injected_error:" + ex.Calls[i].Site)
 		}
-		if ex.V.Panic != "" {
+		if ex.V.Panic != "" && !strings.HasPrefix(ex.V.Panic, "injected downstream panic") {
 			s.violate("C14", "U1-no-panic", "modeb: "+oneLine(ex.V.Panic), ex.V.Panic)
 			return
 		}
@@ -225,7 +225,7 @@ func (s *Sim) runC03Scenario(sc *Scenario, r *Rng) {
 			panic(harnessErr("planned fault %s did not fire (calls %v)", label, siteList(ex.Calls)))
 		}
 		first := ex.Fired[0]
-		mode := map[int]string{faultBefore: "before", faultAfter: "after"}[fail[first]]
+		mode := map[int]string{faultBefore: "before", faultAfter: "after", faultPanic: "panic"}[fail[first]]
 		fp := fmt.Sprintf("swallowed-failure site=%s mode=%s route=%s", occurrence(ex.Calls, first), mode, route)
 		s.Stats.States[fmt.Sprintf("%s|%s|%s|%d", route, occurrence(ex.Calls, first), mode, len(fail))] = true
 		if ex.V.Success {
@@ -236,7 +236,7 @@ func (s *Sim) runC03Scenario(sc *Scenario, r *Rng) {
 		}
 	}
 	for _, i := range idxs {
-		for _, mode := range []int{faultBefore, faultAfter} {
+		for _, mode := range []int{faultBefore, faultAfter, faultPanic} {
 			check(map[int]int{i: mode}, occurrence(dry.Calls, i))
 		}
 	}
